@@ -295,7 +295,7 @@ PROPS = {
         "quick": (0, 60), "thorough": (0, 900),
         "floor": 20,
         "fuzz_targets": [
-            {"name": "pe", "env": {"VERIF_FAMILY": "pe"}, "seeds": [
+            {"name": "pe", "env": {"VERIF_FAMILY": "pe"}, "seed_gen": "pe_pairs", "seeds": [
                 "{repo}/tests/oss-fuzz/pe_fuzzer_corpus/*", "{repo}/tests/oss-fuzz/dotnet_fuzzer_corpus/*",
                 "{repo}/tests/data/tiny*", "{repo}/tests/data/pe_*", "{repo}/tests/data/*.dll", "{repo}/tests/data/*.efi",
                 "{repo}/tests/data/weird_rich", "{repo}/tests/data/bad_dotnet_pe", "{repo}/tests/data/0*", "{repo}/tests/data/3*",
@@ -454,7 +454,7 @@ PROPS = {
         "level_note": ("Thread schedules are sampled (three repetitions per thread count), not controlled; `-l` is not "
                        "generated (a global cut-off by design); console.log rules are not generated (their output is printed "
                        "outside the output lock)."),
-        "quick": (4, 5), "thorough": (16, 25),
+        "quick": (4, 7), "thorough": (16, 25),
         "floor": 2,
         "rule": ("case = one generated (tree, rules, options, thread counts, externals stage); a few hundred process "
                  "launches each; `evaluations` counts yara/yarac invocations. Non-trivial: > 64 files of >= 2 kinds, >= 2 "
